@@ -30,7 +30,8 @@
 EXTENDS Naturals, Sequences, FiniteSets, TLC
 
 CONSTANTS Files,     \* credentials-file descriptors to explore (see Entry / Writing below)
-          Rows       \* start-up configurations to explore
+          Rows,      \* start-up configurations to explore
+          PemLen     \* certificate / key files: up to that many sections per generated file
 
 --------------------------------------------------------------------------
 (* characters *)
@@ -514,18 +515,93 @@ Listen == [ dflt  |-> [ text |-> "",                        loopback |-> FALSE ]
 H(sect, name, cert, key) == [ sect |-> sect, name |-> name, cert |-> cert, key |-> key ]
 HostLists == << "main_hosts", "ping_hosts", "speedtest_hosts", "reverse_proxy_hosts" >>
 
-Pem == ("cert.pem"        :> [ exists |-> TRUE,  certs |-> TRUE,  key |-> FALSE ])
-    @@ ("key.pem"         :> [ exists |-> TRUE,  certs |-> FALSE, key |-> TRUE ])
-    @@ ("both.pem"        :> [ exists |-> TRUE,  certs |-> TRUE,  key |-> TRUE ])
-    @@ ("garbage.pem"     :> [ exists |-> TRUE,  certs |-> FALSE, key |-> FALSE ])     \* not PEM at all
-    @@ ("badb64.pem"      :> [ exists |-> TRUE,  certs |-> FALSE, key |-> FALSE ])     \* CERTIFICATE block that is not base64
-    @@ ("nonexistent.pem" :> [ exists |-> FALSE, certs |-> FALSE, key |-> FALSE ])
+(* PEM files.  A file is a sequence of sections [lab, dmg]:
+     lab  "CERT" (a CERTIFICATE section) | "KEY" (a PRIVATE KEY section)
+          | "TEXT" (explanatory lines outside any section, e.g. the "subject=" / "issuer=" lines openssl writes)
+     dmg  "none"   intact
+          "b64"    a character outside the base64 alphabet in the body
+          "noend"  the END line is missing: the next section's BEGIN line, or the end of the file, follows the body
+          "cut"    the file ends in the middle of the body (an interrupted write; only the last section)
+          "der"    a whole body line is lost: still PEM, still base64, no longer a certificate / a key
+   The harness owns one real certificate and its key; their base64 bodies are named in the text by the
+   placeholders @CERT:a@ @CERT:b@ @KEY:a@ @KEY:b@ (first lines / remaining lines, no trailing newline).      *)
+Sec(l, d) == [ lab |-> l, dmg |-> d ]
+SecC == Sec("CERT", "none")     SecK == Sec("KEY", "none")     SecT == Sec("TEXT", "none")
+Damages == { "b64", "noend", "cut", "der" }
+SecKinds == { Sec(l, d) : l \in { "CERT", "KEY" }, d \in { "none" } \cup Damages } \cup { SecT }
+
+PemLabel == [ CERT |-> "CERTIFICATE", KEY |-> "PRIVATE KEY" ]
+SecText(s) ==
+    IF s.lab = "TEXT" THEN "subject=CN = h1\nissuer=CN = h1\n"
+    ELSE LET b == "-----BEGIN " \o PemLabel[s.lab] \o "-----\n"
+             e == "-----END " \o PemLabel[s.lab] \o "-----\n"
+             A == "@" \o s.lab \o ":a@"
+             B == "@" \o s.lab \o ":b@" IN
+         CASE s.dmg = "none"  -> b \o A \o "\n" \o B \o "\n" \o e
+           [] s.dmg = "b64"   -> b \o A \o "!\n" \o B \o "\n" \o e
+           [] s.dmg = "noend" -> b \o A \o "\n" \o B \o "\n"
+           [] s.dmg = "cut"   -> b \o A
+           [] s.dmg = "der"   -> b \o B \o "\n" \o e
+RECURSIVE SecsText(_)
+SecsText(ss) == IF ss = << >> THEN "" ELSE SecText(Head(ss)) \o SecsText(Tail(ss))
+
+SecName(s) == (CASE s.lab = "CERT" -> "C" [] s.lab = "KEY" -> "K" [] OTHER -> "T") \o (IF s.dmg = "none" THEN "" ELSE s.dmg)
+RECURSIVE SecsName(_)
+SecsName(ss) == IF Len(ss) = 1 THEN SecName(ss[1]) ELSE SecName(Head(ss)) \o "+" \o SecsName(Tail(ss))
+
+\* the files TLC generates: every sequence of up to PemLen sections
+PemSeqs(n) == { ss \in UNION { [1..k -> SecKinds] : k \in 1..n } : \A i \in 1..(Len(ss) - 1) : ss[i].dmg # "cut" }
+
+(* What such a file is good for, declaratively.
+   As a certificate chain: every certificate written in it is part of what the endpoint would serve, so the file
+   is loadable only if it has a certificate and EVERY certificate section is intact - a chain with one readable
+   and one damaged certificate is not "the readable part", it is unloadable.
+   As a private key: it must have an intact key section.
+   "open": the statement does not decide (a damaged section the role does not need).                          *)
+HasIntact(ss, l)  == \E i \in DOMAIN ss : ss[i].lab = l /\ ss[i].dmg = "none"
+HasDamaged(ss, l) == \E i \in DOMAIN ss : ss[i].lab = l /\ ss[i].dmg # "none"
+OtherLab == [ CERT |-> "KEY", KEY |-> "CERT" ]
+RoleVerdict(ss, l) ==
+    IF l = "CERT" /\ (~ HasIntact(ss, "CERT") \/ HasDamaged(ss, "CERT")) THEN "refuse"
+    ELSE IF l = "KEY" /\ ~ HasIntact(ss, "KEY") THEN "refuse"
+    ELSE IF HasDamaged(ss, "CERT") \/ HasDamaged(ss, "KEY") THEN "open"
+    ELSE "accept"
+\* What a reader of the PEM framing alone (TlsHostsSettings::validate, the builder) can tell: a "der" section looks
+\* intact to it.  Only whoever parses the DER (TlsDemux::new) notices.
+FramingVerdict(ss, l) == RoleVerdict([ i \in DOMAIN ss |-> IF ss[i].dmg = "der" THEN Sec(ss[i].lab, "none") ELSE ss[i] ], l)
+
+PemFileOf(ss) == [ exists |-> TRUE, secs |-> ss ]
+PemNamed == ("cert.pem"        :> PemFileOf(<< SecC >>))
+         @@ ("key.pem"         :> PemFileOf(<< SecK >>))
+         @@ ("both.pem"        :> PemFileOf(<< SecC, SecK >>))
+         @@ ("garbage.pem"     :> PemFileOf(<< SecT >>))                                  \* not PEM at all
+         @@ ("badb64.pem"      :> PemFileOf(<< Sec("CERT", "b64") >>))                    \* CERTIFICATE block that is not base64
+         @@ ("nonexistent.pem" :> [ exists |-> FALSE, secs |-> << >> ])
+GenName(ss) == SecsName(ss) \o ".pem"
+PemGen == LET S == PemSeqs(PemLen)
+              N == [ ss \in S |-> GenName(ss) ] @@ << >>
+          IN [ f \in { N[ss] : ss \in S } |-> PemFileOf(CHOOSE ss \in S : N[ss] = f) ]
+\* (no TLCEval here and below: TLC evaluates a TLCEval-ed constant once per worker; `@@` already yields an explicit function)
+Pem == PemNamed @@ PemGen
+PemText == [ f \in { g \in DOMAIN Pem : Pem[g].exists } |-> SecsText(Pem[f].secs) ]
+
+ChainVerdict(f) == IF ~ Pem[f].exists THEN "refuse" ELSE RoleVerdict(Pem[f].secs, "CERT")
+KeyVerdict(f)   == IF ~ Pem[f].exists THEN "refuse" ELSE RoleVerdict(Pem[f].secs, "KEY")
 
 \* what "duplicate" and "unloadable" mean, declaratively: host names are unique across ALL four lists
-\* (any two positions, same list or not), every host has a certificate chain and a private key
+\* (any two positions, same list or not), every host has a loadable certificate chain and a loadable private key
 HostsDup(hs) == \E i, j \in DOMAIN hs : i < j /\ hs[i].name = hs[j].name
-HostUnloadable(h) == ~ Pem[h.cert].certs \/ ~ Pem[h.key].key
+HostUnloadable(h) == ChainVerdict(h.cert) = "refuse" \/ KeyVerdict(h.key) = "refuse"
+HostOpen(h) == ~ HostUnloadable(h) /\ (ChainVerdict(h.cert) = "open" \/ KeyVerdict(h.key) = "open")
+\* ... and what the framing alone says about a host: "refuse" (must be noticed by a PEM reader), "accept", or "open"
+\* (an unloadable host whose framing has a damaged section the role does not need: noticed there or by TlsDemux::new)
+HostFraming(h) ==
+    IF ~ Pem[h.cert].exists \/ ~ Pem[h.key].exists THEN "refuse"
+    ELSE LET c == FramingVerdict(Pem[h.cert].secs, "CERT")  k == FramingVerdict(Pem[h.key].secs, "KEY") IN
+         IF c = "refuse" \/ k = "refuse" THEN "refuse" ELSE IF c = "open" \/ k = "open" THEN "open" ELSE "accept"
 HostsUnloadable(hs) == \E i \in DOMAIN hs : HostUnloadable(hs[i])
+HostsFraming(hs) == IF \E i \in DOMAIN hs : HostFraming(hs[i]) = "refuse" THEN "refuse"
+                    ELSE IF \E i \in DOMAIN hs : HostFraming(hs[i]) = "open" THEN "open" ELSE "accept"
 HostsMissingFile(hs) == \E i \in DOMAIN hs : ~ Pem[hs[i].cert].exists \/ ~ Pem[hs[i].key].exists
 \* TlsHostsSettings is acceptable (builder, start-up, reload)
 HostsAccepted(hs) == ~ HostsDup(hs) /\ ~ HostsUnloadable(hs)
@@ -560,7 +636,11 @@ DupVariants == { [ name |-> "dup:" \o PlaceName(w) \o ":" \o bg, cls |-> "dup:" 
 \* one unloadable host in list k (alone in the list, or after a good one), all other lists populated
 BadHostKinds == [ certGarbage |-> << "garbage.pem", "key.pem" >>, keyGarbage |-> << "cert.pem", "garbage.pem" >>,
               certMissing |-> << "nonexistent.pem", "key.pem" >>, keyIsCert |-> << "cert.pem", "cert.pem" >>,
-              certIsKey |-> << "key.pem", "key.pem" >> ]
+              certIsKey |-> << "key.pem", "key.pem" >>,
+              \* a chain / a combined file of two sections, one of them damaged
+              chainB64 |-> << "C+Cb64.pem", "key.pem" >>, chainCut |-> << "C+Ccut.pem", "key.pem" >>,
+              chainNoEnd |-> << "C+Cnoend.pem", "key.pem" >>, chainFirstBad |-> << "Cb64+C.pem", "key.pem" >>,
+              bothKeyCut |-> << "C+Kcut.pem", "C+Kcut.pem" >>, bothCertBad |-> << "K+Cb64.pem", "K+Cb64.pem" >> ]
 RECURSIVE BadFrom(_, _, _, _)
 BadFrom(kb, kind, second, k) ==
     IF k > 4 THEN << >>
@@ -590,13 +670,28 @@ CoreVariants == {
     [ name |-> "certBadBase64", cls |-> "certBadBase64", hs |-> << H("main_hosts", "h1", "badb64.pem", "key.pem") >> ] }
 CoreHostNames == { v.name : v \in CoreVariants }
 
-HostVariants == CoreVariants \cup DupVariants \cup BadVariants
+(* Every generated certificate / key file, as the chain (with the good key), as the key (with the good chain)
+   and as both, of a single main host - left out where the statement does not decide (HostOpen).            *)
+PemRoles == { "chain", "key", "both" }
+PemHost(f, role) == H("main_hosts", "h1", IF role = "key" THEN "cert.pem" ELSE f, IF role = "chain" THEN "key.pem" ELSE f)
+PemVariants == { [ name |-> "pem:" \o role \o ":" \o f, cls |-> "pem:" \o role \o ":" \o f, hs |-> << PemHost(f, role) >> ] :
+                   f \in { g \in DOMAIN Pem : Pem[g].exists /\ g \notin DOMAIN PemNamed }, role \in PemRoles }
+PemDecided == { v \in PemVariants : ~ HostOpen(v.hs[1]) }
+PemHostNames == { v.name : v \in PemDecided }
 
-Hosts == [ n \in { v.name : v \in HostVariants } |->
-             LET hv == CHOOSE v \in HostVariants : v.name = n
+HostVariants == CoreVariants \cup DupVariants \cup BadVariants \cup PemDecided
+\* no host of any generated hosts file is one the statement leaves open
+ASSUME \A v \in HostVariants : \A i \in DOMAIN v.hs : ~ HostOpen(v.hs[i])
+\* ... and a host only TlsDemux::new can refuse is a main host (the other lists are not all built in every configuration)
+ASSUME \A v \in HostVariants : \A i \in DOMAIN v.hs : (HostUnloadable(v.hs[i]) /\ HostFraming(v.hs[i]) # "refuse") => v.hs[i].sect = "main_hosts"
+
+HostVariantsC == HostVariants
+Hosts == << >> @@ [ n \in { v.name : v \in HostVariantsC } |->
+             LET hv == CHOOSE v \in HostVariantsC : v.name = n
                  hs == hv.hs IN
-             [ hs |-> hs, cls |-> hv.cls, dup |-> HostsDup(hs), unloadable |-> HostsUnloadable(hs),
-               stg |-> IF HostsMissingFile(hs) THEN "parse" ELSE IF ~ HostsAccepted(hs) THEN "validate" ELSE "none" ] ]
+             [ hs |-> hs, cls |-> hv.cls, dup |-> HostsDup(hs), unloadable |-> HostsUnloadable(hs), framing |-> HostsFraming(hs),
+               stg |-> IF HostsMissingFile(hs) THEN "parse" ELSE IF HostsDup(hs) \/ HostsFraming(hs) = "refuse" THEN "validate"
+                       ELSE IF HostsUnloadable(hs) THEN "demux" ELSE "none" ] ]
 
 \* [reverse_proxy] variants: the text of the section, and the same as plain values for the builder (bld = FALSE: only expressible as text)
 RpText(addr, mask, extra) == "[reverse_proxy]\nserver_address = \"" \o addr \o "\"\npath_mask = \"" \o mask \o "\"\n" \o extra
@@ -647,9 +742,11 @@ VpnText(r) ==
     \o Rp[r.rp].text
     \o ProtoText(r.protos)
 
-StartInit ==
-    /\ row \in Rows /\ stage = "parse_settings" /\ verdict = "none" /\ seen = {} /\ lst = 1
+StartInitIn(R) ==
+    /\ row \in R /\ stage = "parse_settings" /\ verdict = "none" /\ seen = {} /\ lst = 1
     /\ file = "none" /\ doc = "none" /\ idx = 0 /\ clients = << >> /\ outcome = "none" /\ registry = {} /\ exported = << >>
+
+StartInit == StartInitIn(Rows)
 
 StartRefuse(why) == verdict' = "refuse" /\ stage' = why /\ UNCHANGED << row, seen, lst, cvars >>
 Advance(s) == stage' = s /\ UNCHANGED << row, verdict, seen, lst, cvars >>
@@ -672,19 +769,27 @@ ValidateSettingsOk == stage = "validate_settings" /\ Rp[row.rp].valid /\ row.pro
    compared with every name before it - in the same list and in all earlier lists.                          *)
 ListOf(k) == SelectSeq(Hosts[row.hosts].hs, LAMBDA h : h.sect = HostLists[k])
 NamesOf(l) == { l[i].name : i \in DOMAIN l }
-ListBad(l) == \/ \E i \in DOMAIN l : HostUnloadable(l[i])
+ListBad(l) == \/ \E i \in DOMAIN l : HostFraming(l[i]) = "refuse"                   \* load_certs / load_private_key
               \/ \E i, j \in DOMAIN l : i < j /\ l[i].name = l[j].name
               \/ NamesOf(l) \cap seen # {}
-ValidateListFail == stage = "validate_hosts" /\ lst <= 4 /\ ListBad(ListOf(lst)) /\ StartRefuse("refused_hosts")
+\* a host whose framing verdict is open may be refused here or pass (it is unloadable: TlsDemux::new refuses it then)
+ListMayFail(l) == ListBad(l) \/ \E i \in DOMAIN l : HostFraming(l[i]) = "open"
+ValidateListFail == stage = "validate_hosts" /\ lst <= 4 /\ ListMayFail(ListOf(lst)) /\ StartRefuse("refused_hosts")
 ValidateListOk   == stage = "validate_hosts" /\ lst <= 4 /\ ~ ListBad(ListOf(lst))
                     /\ seen' = seen \cup NamesOf(ListOf(lst)) /\ lst' = lst + 1
                     /\ UNCHANGED << row, stage, verdict, cvars >>
-ValidateHostsOk  == stage = "validate_hosts" /\ lst = 5
-                    /\ verdict' = "start" /\ stage' = "started" /\ UNCHANGED << row, seen, lst, cvars >>
+ValidateHostsOk  == stage = "validate_hosts" /\ lst = 5 /\ Advance("build_demux")
+(* TlsDemux::new: every host's chain is parsed as X.509 and its key as a private key - the stage that notices a
+   section that is well-formed PEM but not a certificate / a key.  (All generated files of that kind are main hosts;
+   the reverse-proxy list is only built when a [reverse_proxy] section is present.)                              *)
+DemuxBad == \E i \in DOMAIN Hosts[row.hosts].hs : HostUnloadable(Hosts[row.hosts].hs[i])
+BuildDemuxFail == stage = "build_demux" /\ DemuxBad /\ StartRefuse("refused_demux")
+BuildDemuxOk   == stage = "build_demux" /\ ~ DemuxBad
+                  /\ verdict' = "start" /\ stage' = "started" /\ UNCHANGED << row, seen, lst, cvars >>
 
 StartNext == ParseSettingsFail \/ ParseSettingsOk \/ ParseHostsFail \/ ParseHostsOk
              \/ ValidateRpFail \/ ValidateProtoFail \/ ValidateCredsFail \/ ValidateSettingsOk
-             \/ ValidateListFail \/ ValidateListOk \/ ValidateHostsOk
+             \/ ValidateListFail \/ ValidateListOk \/ ValidateHostsOk \/ BuildDemuxFail \/ BuildDemuxOk
 
 StartDone == verdict # "none"
 
@@ -701,6 +806,8 @@ SettingsVerdict(r) ==
        \/ ~ Rp[r.rp].valid
     THEN "refuse" ELSE "start"
 HostsVerdict(n) == IF Hosts[n].dup \/ Hosts[n].unloadable THEN "refuse" ELSE "accept"
+\* the builder only reads the PEM framing: whether it also notices a section that is not a certificate / a key is left open
+HostsBuilderVerdict(n) == IF Hosts[n].dup \/ Hosts[n].framing = "refuse" THEN "refuse" ELSE IF Hosts[n].unloadable THEN "open" ELSE "accept"
 
 StartTypeOK == verdict \in { "none", "refuse", "start" }
 
